@@ -216,7 +216,9 @@ def run_scan(case: dict[str, Any]) -> dict[str, Any]:
                       case.get("reset_mode", "absent"))
     st = TCPUDSServerTransport(srv, TargetURI("tcp-lines://127.0.0.1:20162"))
     kw: dict[str, Any] = {}
-    if case["skip"]:
+    if case.get("skip_text"):
+        kw["skip"] = list(case["skip_text"])  # the way the command line hands it over: range expressions
+    elif case["skip"]:
         kw["skip"] = [int(x) for x in case["skip"]]
     if case.get("reset") is not None:
         kw["reset"] = int(case["reset"])
